@@ -10,7 +10,10 @@ the IR is passed through ``finalize_randomness`` and rendered (a) by the real ``
 Oracle (this file): an S-expression reader + a small reference evaluator + a static scope checker for
 the printed IR with the *engine's* scoping rules (eval / agg / scan environments, see ``Binding rules``
 below).  Verdict per case: both texts are well scoped (every ``Ref`` resolves in the environment of
-its position -- checked statically on every node, evaluated or not) and evaluate to the same value.
+its position -- checked statically on every node, evaluated or not; a lifted binding whose value
+aggregates or scans is referenced only from positions with the SAME aggregation / scan context, i.e. never
+across the body of AggFilter / AggExplode / AggGroupBy / AggArrayPerElement / StreamAgg / StreamAggScan, see
+``ScopeChecker``) and evaluate to the same value.
 Operator semantics are deliberately total (no run-time errors: out-of-range index => NA, x/0 => NA)
 and identical for both texts, so mistakes about them cancel; scoping is the trusted part.
 A plain text that is itself ill scoped means the generator built an invalid program: not judged.
@@ -29,7 +32,12 @@ RULE = (
     'StreamAggScan), depth <= 6, with a pool that re-uses the same Expression object wherever its variables are in scope '
     'and a dup rule that uses one object 2-4 times inside/outside lambdas, in both If branches and across the '
     'aggregation boundary; phase table: range_table / annotate (incl. hl.scan.*) / filter / annotate_globals / '
-    'aggregate(_localize=False) programs with shared row and global expressions.  A case is non-trivial when the CSE text '
+    'aggregate(_localize=False) programs with shared row and global expressions; phase aggctx: int64 aggregation expressions over '
+    'Table.aggregate / Table.annotate with hl.scan / array.aggregate / stream._aggregate_scan hosts in which one aggregation-valued '
+    'Expression object (count, count_where, sum, max, collect, sums / products / conditionals of those) is re-used outside and inside, '
+    'in sibling, in nested and several times inside the bodies of filter / explode / group_by / array_agg (agg and scan) and of a local '
+    'array.aggregate, wherever the variables it mentions are bound (so an aggregation that does not mention the explode / array_agg '
+    'variable crosses that node).  A case is non-trivial when the CSE text '
     'contains at least one lifted binding; distinct by the CSE text with uids normalised.'
 )
 ASSUMPTIONS = [
@@ -40,7 +48,13 @@ ASSUMPTIONS = [
 TRUSTED_BASE = ['vf/monitors/c35.py reference evaluator (scoping rules)', 'vf/hail_fake_backend.py', 'vf/shims (decorator, parsimonious, orjson)']
 SHARDS = {'quick': 4, 'thorough': 16}
 TIMEOUT = {'quick': 600, 'thorough': 3000}
-FLOORS = {'judged': 300, 'cse_bindings_total': 500, 'agg_lets': 20, 'cases_with_stream_agg': 50, 'node_kinds': 30, 'table_cases_judged': 20}
+FLOORS = {
+    'judged': 300, 'cse_bindings_total': 500, 'agg_lets': 20, 'cases_with_stream_agg': 50, 'node_kinds': 30, 'table_cases_judged': 20,
+    # phase aggctx (about half of the minimum over quick seeds 0..4): aggregation objects shared across / inside nodes that redefine
+    # the aggregated records, and lifted aggregation bindings / references whose context the scope checker compared
+    'aggctx_cases_judged': 400, 'aggctx_shared_across_contexts': 500, 'aggctx_shared_inside_context': 60, 'aggctx_sharing_kinds': 9,
+    'agg_context_bindings_checked': 600, 'agg_context_refs_checked': 1300, 'agg_context_changes_checked': 1400,
+}
 
 
 # =================================================================================================
@@ -291,6 +305,7 @@ def show(v, depth=0):
 #   AggFilter isScan c b      c: per record (r, None, None)                     b: the records with c true
 #   AggExplode x isScan s b   s: per record (r, None, None)                     b: records x elements, + x
 #   AggGroupBy isScan k b     k: per record (r, None, None)                     b: per group
+#   AggArrayPerElement x i isScan _ a b   a: per record (r, None, None)         b (per position p): ev + i, records with a[p], + x
 #   TableMapRows t r          r: ev={global,row}, scan=[{global,row_j} | j<i], agg=None
 #   TableFilter t p           p: ev={global,row}
 #   TableMapGlobals t g       g: ev={global}
@@ -436,8 +451,23 @@ def _all_defined(args):
     return all(a is not None for a in args)
 
 
+MAX_COLLECTION = 200_000
+
+
+def _bounded(v):
+    """collections / strings that grow multiplicatively (flatMap of ranges, a fold that doubles its accumulator) would exhaust the
+    machine's memory long before the step budget: such a case is 'unknown' (not judged), like any other evaluator limit"""
+    if isinstance(v, (list, str)) and len(v) > MAX_COLLECTION:
+        raise Unknown('huge value')
+    return v
+
+
 def apply_function(name, args, ret_type):
     """the registered functions the generated programs reach; anything else => Unknown"""
+    return _bounded(_apply_function(name, args, ret_type))
+
+
+def _apply_function(name, args, ret_type):
     a = args
     if name in ('toInt32', 'toInt64'):
         return _to_int(a[0])
@@ -535,6 +565,12 @@ def apply_function(name, args, ret_type):
         return None if a[0] is None else a[0].get(a[1])
     if name == 'isDefined':
         return a[0] is not None
+    if name in ('values', 'keys') and len(a) == 1:
+        if a[0] is None:
+            return None
+        if not isinstance(a[0], DictV):
+            raise Unknown(name + ' of ' + type(a[0]).__name__)
+        return [kv[1 if name == 'values' else 0] for kv in a[0].items]
     raise Unknown('function ' + name)
 
 
@@ -853,6 +889,7 @@ class Evaluator:
             v = self._concrete(self.ev(x[3], self._bindn(env, (x[1],), (e,))))
             if v is not None:
                 out.extend(v)
+                _bounded(out)
         return out
 
     def n_StreamFold(self, x, env):
@@ -1029,6 +1066,7 @@ class Evaluator:
                 r2 = dict(r)
                 r2[name] = e
                 new.append(r2)
+            _bounded(new)
         return self.ev(x[4], self._with_records(env, is_scan, new))
 
     def n_AggGroupBy(self, x, env):
@@ -1039,6 +1077,31 @@ class Evaluator:
             k = self.ev(x[2], (r, None, None))
             groups.setdefault(canon(k), (k, []))[1].append(r)
         return DictV([(k, self.ev(x[3], self._with_records(env, is_scan, rs))) for k, rs in groups.values()])
+
+    def n_AggArrayPerElement(self, x, env):
+        # (AggArrayPerElement elt idx isScan hasKnownLength array body): one result per array position i; the records of
+        # position i are the records whose array has a position i, with elt bound to that element; idx is bound in the
+        # EVAL scope of the body.  (The engine demands equal lengths and raises otherwise; total here, same for both texts.)
+        elt, idx, is_scan = x[1], x[2], _bool_atom(x[3])
+        if len(x) != 7 or _bool_atom(x[4]):
+            raise Unknown('AggArrayPerElement form')
+        recs = self._records(env, is_scan, 'AggArrayPerElement')
+        arrays = [(r, self._concrete(self.ev(x[5], (r, None, None)))) for r in recs]
+        lens = [len(a) for _, a in arrays if a is not None]
+        if not lens:
+            return None
+        out = []
+        for i in range(max(lens)):
+            sub = []
+            for r, a in arrays:
+                if a is not None and i < len(a):
+                    r2 = dict(r)
+                    r2[elt] = a[i]
+                    sub.append(r2)
+            e2 = dict(env[0])
+            e2[idx] = i
+            out.append(self.ev(x[6], self._with_records((e2, env[1], env[2]), is_scan, sub)))
+        return out
 
     # ---- tables ----------------------------------------------------------------------------
     # a table value: (globals Struct, rows list of Struct)
@@ -1093,13 +1156,33 @@ class Evaluator:
 # =================================================================================================
 class ScopeChecker:
     """env = (ev names frozenset, agg names frozenset | None, scan names frozenset | None).
-    Collects problems instead of raising so that all are reported."""
+    Collects problems instead of raising so that all are reported.
+
+    Aggregation context of lifted bindings.  Besides the three name environments a position has an *aggregation context*
+    (which records an aggregator used there aggregates over) and a scan context; they are identified by tokens:
+      new agg token   StreamAgg body, TableAggregate query, body of AggFilter / AggExplode / AggGroupBy / AggArrayPerElement (isScan False)
+      new scan token  StreamAggScan body, TableMapRows row, body of the same four nodes with isScan True
+      none            aggregator arguments / AggLet values / filter conditions / explode arrays / group keys (per-record positions),
+                      init arguments, relational children
+    A lifted binding (Let eval __cse_k v b) whose value v uses the aggregation (scan) context of its position -- it contains,
+    outside any context of its own, an ApplyAggOp / AggFilter / AggExplode / AggGroupBy / AggArrayPerElement / AggLet or a reference
+    to such a binding -- stands for "v evaluated in the context of each use" in the inlined text; a reference to it from a position
+    with a different context token is the defect `aggregation-binding-used-in-other-aggregation-context`."""
 
     def __init__(self):
         self.problems = []
         self.n_refs = 0
         self.n_bindings = {'Let': 0, 'AggLet': 0, 'ScanLet': 0}
         self.n_if_branches = 0
+        # aggregation-context bookkeeping
+        self._tok = 0
+        self.agg_tok = None
+        self.scan_tok = None
+        self.cse_ctx = {}          # lifted eval binding name -> (agg token | None, scan token | None) its value depends on
+        self.touched = set()       # context tokens used (in eval position) by the expression being visited
+        self.n_ctx_bindings = 0    # lifted bindings whose value uses an aggregation / scan context
+        self.n_ctx_refs = 0        # references to them
+        self.n_ctx_changes = 0     # context-redefining positions entered below a host
 
     def promoted(self, env, is_scan, what):
         names = env[2] if is_scan else env[1]
@@ -1112,6 +1195,34 @@ class ScopeChecker:
         if is_scan:
             return (env[0], env[1], (env[2] or frozenset()) | extra)
         return (env[0], (env[1] or frozenset()) | extra, env[2])
+
+    def ck_in(self, x, env, new_agg=False, new_scan=False, no_ctx=False, closed=False):
+        """visit x at a position with another aggregation context: `no_ctx` = neither context (eval names kept),
+        `closed` = additionally none of the enclosing lifted bindings is visible (per-record positions, relational children)"""
+        saved = (self.agg_tok, self.scan_tok, self.cse_ctx, self.touched)
+        if no_ctx or closed:
+            self.agg_tok = self.scan_tok = None
+        if closed:
+            self.cse_ctx = {}
+        if new_agg:
+            self._tok += 1
+            self.agg_tok = self._tok
+        if new_scan:
+            self._tok += 1
+            self.scan_tok = self._tok
+        self.touched = set()
+        try:
+            self.ck(x, env)
+        finally:
+            inner = self.touched
+            self.agg_tok, self.scan_tok, self.cse_ctx, self.touched = saved
+            # what the inner expression used of contexts that are still the current ones is a use by the enclosing expression
+            self.touched |= {t for t in inner if t is not None and t in (self.agg_tok, self.scan_tok)}
+
+    def _use_ctx(self, is_scan):
+        t = self.scan_tok if is_scan else self.agg_tok
+        if t is not None:
+            self.touched.add(t)
 
     def ck(self, x, env):
         if not isinstance(x, list) or not x or isinstance(x[0], (list, Str)):
@@ -1126,6 +1237,13 @@ class ScopeChecker:
                     self.problems.append(('binding-hoisted-out-of-conditional-branch', x[1]))
                 else:
                     self.problems.append(('unbound-ref', x[1]))
+                return
+            ent = self.cse_ctx.get(x[1])
+            if ent is not None and (ent[0] is not None or ent[1] is not None):
+                self.n_ctx_refs += 1
+                if (ent[0] is not None and ent[0] != self.agg_tok) or (ent[1] is not None and ent[1] != self.scan_tok):
+                    self.problems.append(('aggregation-binding-used-in-other-aggregation-context', x[1]))
+                self.touched.update(t for t in ent if t is not None)
             return
         if h == 'If':
             # the renderer declares both branches of If to be blocks (If.renderable_new_block): nothing that is only
@@ -1143,13 +1261,30 @@ class ScopeChecker:
             if len(x) != 5 or x[1] != 'eval':
                 raise Unknown('Let form')
             self.n_bindings['Let'] += 1
+            outer_touched = self.touched
+            self.touched = set()
             self.ck(x[3], env)
-            self.ck(x[4], (ev | {x[2]}, env[1], env[2]))
+            used = self.touched
+            self.touched = outer_touched | used
+            saved = self.cse_ctx
+            self.cse_ctx = dict(saved)
+            if str(x[2]).startswith('__cse_'):
+                ent = (self.agg_tok if self.agg_tok in used else None, self.scan_tok if self.scan_tok in used else None)
+                self.cse_ctx[x[2]] = ent
+                if ent != (None, None):
+                    self.n_ctx_bindings += 1
+            else:
+                self.cse_ctx.pop(x[2], None)
+            try:
+                self.ck(x[4], (ev | {x[2]}, env[1], env[2]))
+            finally:
+                self.cse_ctx = saved
             return
         if h == 'AggLet':
             is_scan = _bool_atom(x[2])
             self.n_bindings['ScanLet' if is_scan else 'AggLet'] += 1
-            self.ck(x[3], self.promoted(env, is_scan, 'AggLet ' + x[1]))
+            self._use_ctx(is_scan)
+            self.ck_in(x[3], self.promoted(env, is_scan, 'AggLet ' + x[1]), closed=True)
             self.ck(x[4], self.with_names(env, is_scan, fs([x[1]])))
             return
         if h in ('StreamMap', 'StreamFilter', 'StreamFlatMap', 'StreamFor'):
@@ -1172,29 +1307,43 @@ class ScopeChecker:
             return
         if h == 'StreamAgg':
             self.ck(x[2], env)
-            self.ck(x[3], (ev, ev | {x[1]}, env[2]))
+            self.ck_in(x[3], (ev, ev | {x[1]}, env[2]), new_agg=True)
             return
         if h == 'StreamAggScan':
             self.ck(x[2], env)
-            self.ck(x[3], (ev | {x[1]}, env[1], ev | {x[1]}))
+            self.ck_in(x[3], (ev | {x[1]}, env[1], ev | {x[1]}), new_scan=True)
             return
         if h in ('ApplyAggOp', 'ApplyScanOp'):
             is_scan = h == 'ApplyScanOp'
+            self._use_ctx(is_scan)
             for c in x[2]:
-                self.ck(c, (ev, None, None))
+                self.ck_in(c, (ev, None, None), no_ctx=True)
             p = self.promoted(env, is_scan, h + ' ' + x[1])
             for c in x[3]:
-                self.ck(c, p)
+                self.ck_in(c, p, closed=True)
             return
         if h in ('AggFilter', 'AggGroupBy'):
             is_scan = _bool_atom(x[1])
-            self.ck(x[2], self.promoted(env, is_scan, h))
-            self.ck(x[3], env)
+            self._use_ctx(is_scan)
+            self.ck_in(x[2], self.promoted(env, is_scan, h), closed=True)
+            self.n_ctx_changes += 1
+            self.ck_in(x[3], env, new_agg=not is_scan, new_scan=is_scan)
             return
         if h == 'AggExplode':
             is_scan = _bool_atom(x[2])
-            self.ck(x[3], self.promoted(env, is_scan, h))
-            self.ck(x[4], self.with_names(env, is_scan, fs([x[1]])))
+            self._use_ctx(is_scan)
+            self.ck_in(x[3], self.promoted(env, is_scan, h), closed=True)
+            self.n_ctx_changes += 1
+            self.ck_in(x[4], self.with_names(env, is_scan, fs([x[1]])), new_agg=not is_scan, new_scan=is_scan)
+            return
+        if h == 'AggArrayPerElement':
+            is_scan = _bool_atom(x[3])
+            if len(x) != 7 or _bool_atom(x[4]):
+                raise Unknown('AggArrayPerElement form')
+            self._use_ctx(is_scan)
+            self.ck_in(x[5], self.promoted(env, is_scan, h), closed=True)
+            self.n_ctx_changes += 1
+            self.ck_in(x[6], self.with_names((ev | {x[2]}, env[1], env[2]), is_scan, fs([x[1]])), new_agg=not is_scan, new_scan=is_scan)
             return
         if h in ('MakeStruct',):
             for f in x[1:]:
@@ -1206,23 +1355,23 @@ class ScopeChecker:
                 self.ck(f[1], env)
             return
         if h == 'TableMapRows':
-            self.ck(x[1], (fs(), None, None))
-            self.ck(x[2], (fs(['global', 'row']), None, fs(['global', 'row'])))
+            self.ck_in(x[1], (fs(), None, None), closed=True)
+            self.ck_in(x[2], (fs(['global', 'row']), None, fs(['global', 'row'])), closed=True, new_scan=True)
             return
         if h == 'TableFilter':
-            self.ck(x[1], (fs(), None, None))
-            self.ck(x[2], (fs(['global', 'row']), None, None))
+            self.ck_in(x[1], (fs(), None, None), closed=True)
+            self.ck_in(x[2], (fs(['global', 'row']), None, None), closed=True)
             return
         if h == 'TableMapGlobals':
-            self.ck(x[1], (fs(), None, None))
-            self.ck(x[2], (fs(['global']), None, None))
+            self.ck_in(x[1], (fs(), None, None), closed=True)
+            self.ck_in(x[2], (fs(['global']), None, None), closed=True)
             return
         if h == 'TableAggregate':
-            self.ck(x[1], (fs(), None, None))
-            self.ck(x[2], (fs(['global']), fs(['global', 'row']), None))
+            self.ck_in(x[1], (fs(), None, None), closed=True)
+            self.ck_in(x[2], (fs(['global']), fs(['global', 'row']), None), closed=True, new_agg=True)
             return
         if h in ('TableKeyBy', 'TableParallelize', 'TableGetGlobals', 'TableCount', 'TableCollect'):
-            self.ck(x[-1], (fs(), None, None))
+            self.ck_in(x[-1], (fs(), None, None), closed=True)
             return
         if h in GENERIC_NODES:
             for c in x[GENERIC_NODES[h]:]:
@@ -1308,6 +1457,9 @@ def classify(problem, cse_tree):
         return 'cse/binding-hoisted-out-of-conditional-branch'
     if kind in ('agg-op-outside-agg-context', 'scan-op-outside-scan-context'):
         return 'cse/aggregation-outside-its-context'
+    if kind == 'aggregation-binding-used-in-other-aggregation-context':
+        # a lifted aggregation is bound where it aggregates over other records than at (one of) its uses
+        return 'cse/aggregation-lifted-across-aggregation-context'
     return 'cse/' + kind
 
 
@@ -1336,6 +1488,9 @@ def judge(ctx, final_ir, cse_text, plain_text, sample, phase_tag):
         return 'invalid'
     ctx.count('refs_checked', cc.n_refs)
     ctx.count('if_branches_checked', cc.n_if_branches)
+    ctx.count('agg_context_bindings_checked', cc.n_ctx_bindings)     # lifted bindings whose value aggregates / scans
+    ctx.count('agg_context_refs_checked', cc.n_ctx_refs)             # references to them, each compared with its position's context
+    ctx.count('agg_context_changes_checked', cc.n_ctx_changes)       # AggFilter / AggExplode / AggGroupBy / AggArrayPerElement bodies visited
     ctx.count('cse_bindings_total', len(re.findall(r'\((?:Let eval|AggLet) __cse_\d+ ', cse_text)))
     ctx.count('value_lets', len(re.findall(r'\(Let eval __cse_\d+ ', cse_text)))
     ctx.count('agg_lets', len(re.findall(r'\(AggLet __cse_\d+ False ', cse_text)))
@@ -1351,7 +1506,10 @@ def judge(ctx, final_ir, cse_text, plain_text, sample, phase_tag):
                 continue
             seen_keys.add(key)
             ctx.violation(key, f'CSE text is ill scoped ({p[0]}: {p[1]}) while the inlined text is well scoped', dict(witness, problem=list(p)))
-        return 'judged'
+        if any(p[0] != 'aggregation-binding-used-in-other-aggregation-context' for p in cc.problems):
+            return 'judged'
+        # every name resolves (only the aggregation context of a lifted binding is wrong): the text can still be evaluated,
+        # so the value comparison below is made as well
     # ---- evaluation ----------------------------------------------------------------------------
     ev = Evaluator()
     res = []
@@ -1488,6 +1646,265 @@ def table_program(rng, hl, G):
     return res, feats + ['agg:' + ','.join(keys)]
 
 
+# ---- aggregation-context programs -----------------------------------------------------------------
+# The clause "every lifted binding is placed ... in the right aggregation context".  The SAME aggregation-valued Expression
+# object (CSE is by node identity) is used at positions with DIFFERENT sets of aggregated records: outside and inside the body of
+# agg.filter / agg.explode / agg.group_by / agg.array_agg (and their hl.scan twins, and a local array.aggregate inside an
+# aggregation), in sibling bodies, in nested bodies, and several times inside one body (where sharing is legitimate, but only
+# below the node that redefines the records).  An aggregation that does not mention the variable bound by explode / array_agg is
+# pinned below that node only by the renderer's aggregation-context metadata, not by a variable.
+class AggCtxGen:
+    """result-position expressions of type int64 over a host aggregation (hl.agg) or scan (hl.scan).
+    ctx = (names, ints): names = abstract names of what per-record positions may mention here ('row' / element variable names),
+    ints = extra int32 per-record atoms (explode / array_agg variables) as (expr, needs)."""
+
+    def __init__(self, rng, hl, A, ints, bools, arrays, max_d, p_share, allow_local):
+        self.r, self.hl, self.A = rng, hl, A
+        self.ints, self.bools, self.arrays = ints, bools, arrays
+        self.max_d, self.p_share, self.allow_local = max_d, p_share, allow_local
+        self.pool = []              # (expr, needs): aggregation-valued int64 expressions, re-usable wherever needs <= names
+        self.features = set()
+        self.reuses = 0
+
+    # -- per-record (aggregator argument) positions --------------------------------------------------
+    def seq_int(self, ctx):
+        r, hl = self.r, self.hl
+        c = [(e, nd) for e, nd in self.ints + list(ctx[1]) if nd <= ctx[0]]
+        if not c:
+            return hl.int32(r.randint(1, 4)), frozenset()
+        e, nd = r.choice(c)
+        x = r.random()
+        if x < 0.25 and len(c) > 1:
+            e2, nd2 = r.choice(c)
+            return e + e2, nd | nd2
+        if x < 0.45:
+            return e * r.randint(2, 3) + r.randint(0, 2), nd
+        return e, nd
+
+    def seq_bool(self, ctx):
+        r = self.r
+        c = [(e, nd) for e, nd in self.bools if nd <= ctx[0]]
+        if c and r.random() < 0.4:
+            return r.choice(c)
+        e, nd = self.seq_int(ctx)
+        return (e > r.randint(0, 3), nd) if r.random() < 0.5 else (e % 2 == r.randint(0, 1), nd)
+
+    def seq_arr(self, ctx):
+        r, hl = self.r, self.hl
+        c = [(e, nd) for e, nd in self.arrays if nd <= ctx[0]]
+        if c and r.random() < 0.6:
+            return r.choice(c)
+        e, nd = self.seq_int(ctx)
+        if r.random() < 0.6:
+            return hl.range(e % r.randint(2, 3)), nd          # lengths 0..2, differ between records
+        e2, nd2 = self.seq_int(ctx)
+        return hl.array([e, e2]), nd | nd2
+
+    def seq_fixed(self, ctx):
+        # equal length for every record (what hl.agg.array_agg demands)
+        hl = self.hl
+        parts = [self.seq_int(ctx) for _ in range(self.r.randint(1, 3))]
+        nd = frozenset().union(*[p[1] for p in parts])
+        return hl.array([p[0] for p in parts]), nd
+
+    # -- result positions ----------------------------------------------------------------------------
+    def register(self, e, nd):
+        self.pool.append((e, nd))
+        return e, nd
+
+    def atom(self, ctx):
+        r, hl, A = self.r, self.hl, self.A
+        k = r.choice(['count', 'count', 'count_where', 'sum', 'sum', 'max', 'ncollect'])
+        self.features.add('atom:' + k)
+        if k == 'count':
+            return self.register(A.count(), frozenset())
+        if k == 'count_where':
+            b, nd = self.seq_bool(ctx)
+            return self.register(A.count_where(b), nd)
+        i, nd = self.seq_int(ctx)
+        if k == 'sum':
+            return self.register(A.sum(i), nd)
+        if k == 'max':
+            return self.register(hl.coalesce(hl.int64(A.max(i)), hl.int64(-1)), nd)
+        return self.register(hl.int64(hl.len(A.collect(i))), nd)
+
+    def expr(self, d, ctx):
+        r, hl, A = self.r, self.hl, self.A
+        el = [(e, nd) for e, nd in self.pool if nd <= ctx[0]]
+        if el and r.random() < self.p_share:
+            self.reuses += 1
+            return r.choice(el[-6:]) if r.random() < 0.6 else r.choice(el)
+        if d >= self.max_d:
+            return self.atom(ctx)
+        k = r.choice(['atom', 'atom', 'arith', 'arith', 'twice', 'ctx', 'ctx', 'ctx', 'ctx', 'cond'])
+        if k == 'atom':
+            return self.atom(ctx)
+        if k == 'arith':
+            a, na = self.expr(d + 1, ctx)
+            b, nb = self.expr(d + 1, ctx)
+            return self.register(a + b if r.random() < 0.6 else a * b, na | nb)
+        if k == 'twice':
+            a, na = self.expr(d + 1, ctx)
+            self.features.add('twice')
+            return self.register(a * a if r.random() < 0.5 else a + a * 2, na)
+        if k == 'cond':
+            c, nc = self.expr(d + 1, ctx)
+            a, na = self.expr(d + 1, ctx)
+            b, nb = self.expr(d + 1, ctx)
+            self.features.add('cond')
+            return self.register(hl.if_else(c > r.randint(0, 3), a, b), nc | na | nb)
+        w = r.choice(['filter', 'filter', 'explode', 'explode', 'explode', 'group_by', 'array_agg'] + (['local'] if self.allow_local else []))
+        self.features.add('ctx:' + w)
+        if w == 'filter':
+            c, nc = self.seq_bool(ctx)
+            b, nb = self.expr(d + 1, ctx)
+            return self.register(A.filter(c, b), nc | nb)
+        if w == 'group_by':
+            c, nc = self.seq_bool(ctx) if r.random() < 0.5 else self.seq_int(ctx)
+            b, nb = self.expr(d + 1, ctx)
+            return self.register(hl.sum(A.group_by(c, b).values()), nc | nb)
+        if w in ('explode', 'array_agg'):
+            arr, narr = self.seq_arr(ctx) if w == 'explode' else self.seq_fixed(ctx)
+            box = {}
+
+            def f(v):
+                name = v._ir.name
+                b, nb = self.expr(d + 1, (ctx[0] | {name}, ctx[1] + ((v, frozenset([name])),)))
+                box['needs'] = nb - {name}
+                return b
+
+            e = A.explode(f, arr) if w == 'explode' else hl.sum(A.array_agg(f, arr))
+            return self.register(e, narr | box['needs'])
+        # a local aggregation in the result position: its records are the elements of a closed array; per-record positions
+        # inside it see the element only (the agg scope of StreamAgg is the enclosing EVAL scope + the element)
+        src = hl.range(r.randint(0, 4)) if r.random() < 0.5 else hl.array([hl.int32(r.randint(0, 5)) for _ in range(r.randint(1, 3))])
+        box = {}
+
+        def g(e):
+            name = e._ir.name
+            b, nb = self.expr(d + 1, (frozenset([name]), ((e, frozenset([name])),)))
+            box['needs'] = nb - {name}
+            return b
+
+        return self.register(src.aggregate(g), box['needs'])
+
+
+def aggctx_program(rng, hl):
+    """returns (Expression | Table, info)"""
+    host = rng.choice(['table_agg', 'table_agg', 'table_agg', 'local_agg', 'table_scan', 'table_scan', 'local_scan'])
+    max_d = rng.choice([2, 3, 3, 4])
+    p_share = rng.choice([0.3, 0.45, 0.6])
+    nf = rng.randint(2, 4)
+    gens = []
+
+    def fields(A, ints, bools, arrays, names, extra, allow_local):
+        g = AggCtxGen(rng, hl, A, ints, bools, arrays, max_d, p_share, allow_local)
+        gens.append(g)
+        ctx0 = (names, ())
+        for _ in range(rng.randint(1, 2)):     # aggregations that exist before anything else: the objects most likely to be re-used
+            g.atom(ctx0)
+        out = {}
+        for i in range(nf):
+            e, _ = g.expr(0 if rng.random() < 0.5 else 1, ctx0)
+            if extra is not None and rng.random() < 0.4:
+                e = e + hl.int64(extra)
+            out[f'f{i}'] = e
+        return out
+
+    if host in ('table_agg', 'table_scan'):
+        t = hl.utils.range_table(rng.choice([0, 1, 2, 3, 3, 4, 4, 5]))
+        t = t.annotate(
+            x=t.idx * rng.randint(1, 3) + rng.randint(0, 2),
+            arr=hl.range((t.idx + rng.randint(0, 2)) % rng.randint(2, 4)),
+            flag=(t.idx % 2 == rng.randint(0, 1)) if rng.random() < 0.5 else (t.idx > rng.randint(0, 2)),
+        )
+        R = frozenset(['row'])
+        ints = [(t.idx, R), (t.x, R), (t.idx + t.x, R)]
+        bools = [(t.flag, R), (t.x > rng.randint(0, 4), R)]
+        arrays = [(t.arr, R), (hl.range(t.idx % 2 + 1), R)]
+        if host == 'table_agg':
+            res = t.aggregate(hl.struct(**fields(hl.agg, ints, bools, arrays, R, None, True)), _localize=False)
+        else:
+            res = t.annotate(**{'s_' + k: v for k, v in fields(hl.scan, ints, bools, arrays, R, t.x, False).items()})
+            if rng.random() < 0.5:
+                res = res.aggregate(hl.agg.collect(res.row), _localize=False)
+    else:
+        src = hl.range(rng.randint(0, 5)) if rng.random() < 0.5 else hl.array([hl.int32(rng.randint(0, 6)) for _ in range(rng.randint(1, 4))])
+
+        def per(e, A, allow_local, extra):
+            E = frozenset([e._ir.name])
+            ints = [(e, E), (e * 2 + 1, E)]
+            bools = [(e % 2 == 0, E)]
+            arrays = [(hl.range(e % 3), E)]
+            return hl.struct(**fields(A, ints, bools, arrays, E, extra, allow_local))
+
+        if host == 'local_agg':
+            res = src.aggregate(lambda e: per(e, hl.agg, True, None))
+        else:
+            res = src._to_stream()._aggregate_scan(lambda e: per(e, hl.scan, False, e)).to_array()
+    g = gens[0]
+    return res, {'host': host, 'features': sorted(g.features), 'reuses': g.reuses, 'max_d': max_d}
+
+
+def agg_sharing_profile(x):
+    """What the DAG that is rendered really shares, measured on the repository's IR objects (not on generator intent).
+    An *aggregation-valued* node is an IR node that uses the aggregation context of its position (`agg_capability` free).
+    The context path of an occurrence is the list of host / context-redefining nodes it sits below.
+    Returns (across, inside, kinds): number of aggregation-valued node objects occurring under >= 2 different context paths,
+    number occurring >= 2 times under one path that ends in a context-redefining node, and the kinds of nodes crossed / sat in."""
+    import hail.ir.ir as irm
+    from hail.ir.base_ir import BaseIR
+
+    CTX = (irm.AggFilter, irm.AggExplode, irm.AggGroupBy, irm.AggArrayPerElement)
+    HOST = (irm.StreamAgg, irm.StreamAggScan)
+    occ = {}
+    budget = [200_000]
+
+    def walk(n, path):
+        budget[0] -= 1
+        if budget[0] < 0:
+            return
+        if isinstance(n, irm.IR):
+            d = occ.setdefault(id(n), [n, {}])[1]
+            d[path] = d.get(path, 0) + 1
+            if d[path] > 1:
+                return
+            for i, c in enumerate(n.children):
+                if not isinstance(c, BaseIR):
+                    continue
+                if isinstance(n, CTX) and i == 1:
+                    walk(c, path + ((id(n), type(n).__name__ + ('/scan' if n.is_scan else '/agg')),))
+                elif isinstance(n, HOST + (irm.TableAggregate, irm.MatrixAggregate)) and i == 1:
+                    walk(c, path + ((id(n), type(n).__name__),))
+                else:
+                    walk(c, path)
+        else:   # relational node: its value children start afresh
+            for c in n.children:
+                if isinstance(c, BaseIR):
+                    walk(c, ((id(n), type(n).__name__),) if isinstance(c, irm.IR) else ())
+
+    walk(x, ())
+    across = inside = 0
+    kinds = set()
+    for n, paths in occ.values():
+        if BaseIR.agg_capability not in n.free_vars:
+            continue
+        ps = list(paths)
+        if len(ps) >= 2:
+            across += 1
+            k = 0
+            while all(len(p) > k for p in ps) and len({p[k] for p in ps}) == 1:
+                k += 1
+            for p in ps:
+                for el in p[k:]:
+                    kinds.add('across:' + el[1])
+        for p, cnt in paths.items():
+            if cnt >= 2 and p and '/' in p[-1][1]:
+                inside += 1
+                kinds.add('inside:' + p[-1][1])
+    return across, inside, kinds
+
+
 def run(ctx):
     import hail as hl
     from hail.ir import finalize_randomness
@@ -1549,6 +1966,16 @@ def run(ctx):
                 ctx.count('cases_with_stream_agg_scan')
             if 'ApplyScanOp' in cse_text:
                 ctx.count('cases_with_scan_op')
+            if phase_tag in ('aggctx', 'corpus'):
+                across, inside, kinds = agg_sharing_profile(final)
+                if phase_tag == 'aggctx':
+                    ctx.count('aggctx_cases_judged')
+                ctx.count('aggctx_shared_across_contexts', across)
+                ctx.count('aggctx_shared_inside_context', inside)
+                if across or inside:
+                    ctx.count('aggctx_cases_with_context_sharing')
+                for k in kinds:
+                    ctx.seen('aggctx_sharing_kinds', k)
             n_cse = cse_text.count('(Ref __cse_')
             ctx.case(sample={'cse': cse_text[:400], 'info': info}, key=normalise(cse_text), nontrivial=n_cse > 0)
             ctx.count('cse_refs_total', n_cse)
@@ -1573,6 +2000,12 @@ def run(ctx):
         inner = hl.array([hl.int32(10), hl.int32(20)])
         t = hl.utils.range_table(4)
         Xr = t.idx + t.idx
+        ta = t.annotate(x=t.idx * 2 + 1, arr=hl.range(t.idx % 3), flag=t.idx > 1)
+        n_rows = hl.agg.count()
+        s_x = hl.agg.sum(ta.x)
+
+        def agg_out_in(inside, n):
+            return ta.aggregate(hl.struct(outside=n, inside=inside(n)), _localize=False)
 
         def shared_local_agg(x):
             s = inner.aggregate(lambda e: hl.agg.sum(e) + hl.int64(x))   # result position mentions the lambda variable
@@ -1624,6 +2057,21 @@ def run(ctx):
             ('two outer lifted values crossed with two inner lifted values', lambda: nest_cross(hl.len(arr) * 10, hl.len(inner) * 7)),
             ('three nested binding sites, outermost value used innermost', lambda: nest3(hl.len(arr) * 10)),
             ('scan and row expression shared in annotate', lambda: (lambda t2: t2.aggregate(hl.agg.sum(t2.s + t2.u), _localize=False))(t.annotate(s=hl.scan.sum(Xr) + hl.int64(Xr), u=hl.scan.count() + hl.scan.sum(Xr)))),
+            # one aggregation OBJECT at positions with different aggregated records (helpers: sharing means the same Python object)
+            ('aggregation used outside and inside agg.explode, not mentioning the element', lambda: agg_out_in(lambda n: hl.agg.explode(lambda e: n, ta.arr), hl.agg.count())),
+            ('aggregation used twice inside agg.explode', lambda: ta.aggregate(hl.agg.explode(lambda e: sq(n_rows, hl.agg.sum(e)), ta.arr), _localize=False)),
+            ('aggregation used twice inside agg.explode inside agg.filter', lambda: ta.aggregate(hl.agg.filter(ta.flag, hl.agg.explode(lambda e: sq(s_x, n_rows), ta.arr)), _localize=False)),
+            ('aggregation used outside and inside agg.filter', lambda: agg_out_in(lambda n: hl.agg.filter(ta.flag, n + n), hl.agg.sum(ta.x))),
+            ('one aggregation in two sibling agg.filter bodies', lambda: ta.aggregate(hl.struct(a=hl.agg.filter(ta.flag, n_rows), b=hl.agg.filter(ta.x > 2, n_rows)), _localize=False)),
+            ('aggregation used outside and inside agg.group_by', lambda: agg_out_in(lambda n: hl.agg.group_by(ta.flag, n * 2), hl.agg.count_where(ta.x > 1))),
+            ('aggregation used outside and inside agg.array_agg', lambda: agg_out_in(lambda n: hl.agg.array_agg(lambda v: n + hl.agg.sum(v), hl.array([ta.x, ta.idx])), hl.agg.count())),
+            ('nested explodes: aggregation of the outer element shared in the inner body', lambda: ta.aggregate(hl.agg.explode(lambda e: (lambda m: m + hl.agg.explode(lambda w: m + hl.agg.sum(w), hl.range(e)))(hl.agg.sum(e)), ta.arr), _localize=False)),
+            ('table aggregation object re-used inside a local aggregation', lambda: ta.aggregate(hl.struct(a=n_rows, b=hl.range(3).aggregate(lambda e: n_rows + hl.agg.sum(e))), _localize=False)),
+            ('local aggregation: count outside and inside agg.explode', lambda: arr.aggregate(lambda e: (lambda n: hl.struct(a=n, b=hl.agg.explode(lambda v: n * n, hl.range(e))))(hl.agg.count()))),
+            ('scan used outside and inside scan.explode / scan.filter / scan.group_by / scan.array_agg', lambda: (lambda s: ta.annotate(
+                a=s, b=hl.scan.explode(lambda e: s + s, ta.arr), c=hl.scan.filter(ta.flag, s), d=hl.scan.group_by(ta.flag, s),
+                e=hl.scan.array_agg(lambda v: s, hl.array([ta.x, ta.idx]))))(hl.scan.count())),
+            ('local scan: running sum outside and inside scan.filter', lambda: arr._to_stream()._aggregate_scan(lambda e: (lambda s: s + hl.scan.filter(e > 1, s * s) + hl.int64(e))(hl.scan.sum(e))).to_array()),
         ]
 
     if ctx.shard == 0:
@@ -1649,6 +2097,17 @@ def run(ctx):
     NT = ctx.pick(150, 1400)
     for i, rng in ctx.cases(NT, 'table'):
         one(i, rng, build_table, 'table')
+
+    def build_aggctx(rng):
+        e, info = aggctx_program(rng, hl)
+        ctx.seen('aggctx_hosts', info['host'])
+        for f in info['features']:
+            ctx.seen('aggctx_ops', f)
+        return e, info
+
+    NA = ctx.pick(220, 1800)
+    for i, rng in ctx.cases(NA, 'aggctx'):
+        one(i, rng, build_aggctx, 'aggctx')
 
     tot = ctx.counters.get('judged', 0) + ctx.counters.get('unknown', 0)
     if ctx.replay is None and tot and ctx.counters.get('unknown', 0) > 0.2 * tot:
@@ -1694,4 +2153,18 @@ def run(ctx):
 #   A12 analysis pass only registers bindings one level too high (print pass unchanged) -> HELD (exit 0) and rightly so: the print
 #       pass then simply finds fewer lifts; the emitted text is still well scoped and equal in value (less sharing, same meaning)
 #   unfixed HEAD itself                                                              -> CAUGHT  (the three keys above)
+#
+# Aggregation-context clause (phase aggctx, the second half of the corpus, ScopeChecker context tokens, AggArrayPerElement in the
+# evaluator; added after seeded/C35-agent4 was missed: the earlier workload built every aggregator afresh inside filter / explode
+# bodies, so no aggregation OBJECT ever occurred at two positions with different aggregated records).  Breaks tried one at a time in a
+# scratch worktree of HEAD b3860ceef, quick tier, seed 0:
+#   seeded/C35-agent4  AggExplode binds agg_capability in the agg/scan scope instead of the eval scope of its body
+#                                   -> CAUGHT  cse/aggregation-lifted-across-aggregation-context, cse/value-differs (exit 1)
+#   B1  AggFilter.renderable_bindings returns {} (capability not rebound)             -> CAUGHT  same two keys (exit 1)
+#   B2  AggGroupBy.renderable_bindings returns {}                                     -> CAUGHT  same two keys (exit 1)
+#   B3  AggArrayPerElement binds only the index in the eval scope of its body         -> CAUGHT  cse/aggregation-lifted-across-aggregation-context
+#       only (count / sum over records that all have the position: values coincide, the static clause decides) (exit 1)
+#   B4  AggExplode rebinds the capability only when not is_scan                       -> CAUGHT  both keys, scan hosts only (exit 1)
+#   seeded/C35-agent2 (per-site numbering of __cse names: inner binding captures the outer reference) still CAUGHT, now also under the
+#       context key (the captured reference resolves to a binding made in another aggregation context).
 # -------------------------------------------------------------------------------------------------
